@@ -2,7 +2,7 @@
 //@ variant: tls DEFS=-DUT_LEG_TLS
 //@ variant: server DEFS=-DUT_T_SERVER
 //@ tu: libxcm/tp/tls/xcm_tp_utls.c
-//@ flags: --max-field-sensitivity-array-size 1024
+//@ flags: --max-field-sensitivity-array-size 700
 //@ defs: $DEFS
 //@ enforce: utls_finish
 //@ replace: xcm_tp_socket_finish
